@@ -1,8 +1,133 @@
+/- C16 driver ops: det.fields / det.suggest / det.tla (model under an explicit iteration order +
+   order-free reference) and det.hist / det.repeat (executable statement: all renderings equal). -/
 import JrsVerif.Common.J
+import JrsVerif.Model.Det
 
 namespace JrsVerif.Drv.C16
-open Lean JrsVerif.J
+open Lean JrsVerif.J JrsVerif.Det
 
-def handle (_op : String) (_j : Json) : Option Json := none
+def bytesOf (s : String) : Det.Name := s.toUTF8.toList.map (·.toNat)
+
+/-- names travel as strings; the model works on their UTF-8 bytes -/
+def nameBack (tbl : List (Det.Name × String)) (n : Det.Name) : String :=
+  match tbl.find? (fun p => p.1 = n) with
+  | some p => p.2
+  | none => "?"
+
+def parseVis (s : String) : Vis :=
+  if s == "h" then .hidden else if s == "u" then .unhide else .normal
+
+def rot {α} (k : Nat) (l : List α) : List α :=
+  if l.isEmpty then l else l.drop (k % l.length) ++ l.take (k % l.length)
+
+/-- a core of the op, its names re-ordered by a permutation derived from `seed` (the hook reports
+    them sorted; the real map iterates in an address-dependent order) -/
+def parseCore (seed : Nat) (idx : Nat) (j : Json) : Option (Core × List String) := do
+  match (← str? j "k") with
+  | "oop" =>
+    let fs := (← arr? j "fs").toList.filterMap (fun f => match f with
+      | .arr #[.str n, .str v] => some (n, parseVis v)
+      | _ => none)
+    let fs := rot (seed / (idx + 1)) fs
+    let fs := if (seed + idx) % 2 == 1 then fs.reverse else fs
+    some (.oop (fs.map (fun f => (bytesOf f.1, f.2))), fs.map (·.1))
+  | "omit" =>
+    let ns := strs (← arr? j "ns")
+    let ns := rot (seed / (idx + 1)) ns
+    some (.omitC (ns.map bytesOf) (← nat? j "prev"), ns)
+  | _ => none
+
+def parseCores (seed : Nat) (j : Json) : Option (List Core × List (Det.Name × String)) :=
+  match j with
+  | .arr a =>
+    let ps := (a.toList.zipIdx).map (fun (c, i) => parseCore seed i c)
+    if ps.any Option.isNone then none
+    else
+      let ps := ps.filterMap id
+      some (ps.map (·.1), (ps.flatMap (·.2)).map (fun s => (bytesOf s, s)))
+  | _ => none
+
+def iterOf (seed : Nat) : Map → Map :=
+  if seed % 3 == 0 then id else if seed % 3 == 1 then List.reverse else rot (seed / 3)
+
+def parseCand (j : Json) : Option (String × Nat) :=
+  match j with
+  | .arr #[.str n, v] => (v.getNat?).toOption.map (fun b => (n, b))
+  | _ => none
+
+def outcomeJson (tbl : List (Det.Name × String)) : TlaOutcome → Json
+  | .called => obj [("ok", toJson true)]
+  | .importNotFound a => obj [("err", .str "import"), ("name", .str (nameBack tbl a))]
+  | .unknownParam a => obj [("err", .str "unknown"), ("name", .str (nameBack tbl a))]
+  | .unbound p => obj [("err", .str "unbound"), ("name", .str (nameBack tbl p))]
+  | .arithmetic => obj [("err", .str "arithmetic")]
+
+def allEqual (a : Array Json) : Bool :=
+  match a.toList with
+  | [] => true
+  | x :: r => r.all (fun y => y == x)
+
+def handle (op : String) (j : Json) : Option Json :=
+  match op with
+  | "det.fields" =>
+    let seed := (nat? j "seed").getD 0
+    match (val? j "cores").bind (parseCores seed) with
+    | none => some (obj [("skip", toJson true), ("_why", .str "det.fields: not an object built from modelled layers")])
+    | some (cs, tbl) =>
+      let it := iterOf seed
+      let back := fun (l : List Det.Name) => ofStrs (l.map (nameBack tbl))
+      some (obj [
+        ("model", obj [("fields", back (fieldsEx it cs false)), ("fieldsAll", back (fieldsEx it cs true)),
+                       ("len", toJson (objLen it cs))]),
+        ("spec", obj [("fields", back (specFields cs false)), ("fieldsAll", back (specFields cs true)),
+                      ("len", toJson (specFields cs false).length)])])
+  | "det.suggest" =>
+    let key := (str? j "key").getD ""
+    match str? j "kind" with
+    | some "local" =>
+      match arr? j "layers" with
+      | none => some (bad "det.suggest: layers")
+      | some ls =>
+        let scopes : List (List (String × Nat)) := ls.toList.map (fun l => match l with
+          | .arr a => a.toList.filterMap parseCand
+          | _ => [])
+        let flat := scopes.flatten
+        let tbl := flat.map (fun p => (bytesOf p.1, p.1))
+        let cands := flat.map (fun p => Cand.mk p.2 (bytesOf p.1))
+        let out := fun (l : List Det.Name) => obj [("key", .str key), ("suggest", ofStrs (l.map (nameBack tbl)))]
+        some (obj [("model", out (suggestLocals cands)), ("spec", out (specRank cands))])
+    | some "field" =>
+      let seed := key.length
+      match (val? j "cores").bind (parseCores seed), arr? j "scores" with
+      | some (cs, tbl), some sc =>
+        let scores := sc.toList.filterMap parseCand
+        let scoreOf := fun (n : Det.Name) => match scores.find? (fun p => bytesOf p.1 = n) with
+          | some p => p.2
+          | none => 0
+        let out := fun (l : List Det.Name) => obj [("key", .str key), ("suggest", ofStrs (l.map (nameBack tbl)))]
+        some (obj [
+          ("model", out (suggestFields (iterOf seed) cs scoreOf)),
+          ("spec", out (specRank ((specFields cs true).map (fun n => Cand.mk (scoreOf n) n))))])
+      | _, _ => some (obj [("skip", toJson true), ("_why", .str "det.suggest: not an object built from modelled layers")])
+    | _ => some (bad "det.suggest: kind")
+  | "det.tla" =>
+    match arr? j "params", arr? j "args" with
+    | some ps, some as =>
+      let params := ps.toList.filterMap (fun p => match p with
+        | .arr #[.str n, .bool d] => some (n, d)
+        | _ => none)
+      let args := as.toList.filterMap (fun a => match a with
+        | .arr #[.str n, .str k] => some (n, if k == "missing-import" || k == "missing-importstr" then ArgKind.unresolvable else ArgKind.ok)
+        | _ => none)
+      let tbl := (params.map (fun p => (bytesOf p.1, p.1))) ++ (args.map (fun a => (bytesOf a.1, a.1)))
+      let ps' := params.map (fun p => Param.mk (bytesOf p.1) p.2)
+      let as' := args.map (fun a => (bytesOf a.1, a.2))
+      some (obj [("model", outcomeJson tbl (applyTla as' ps')), ("spec", outcomeJson tbl (specTla as' ps'))])
+    | _, _ => some (bad "det.tla: parse")
+  | "det.hist" | "det.repeat" =>
+    match arr? j "outs" with
+    | some outs => some (obj [("observed", toJson (allEqual outs && outs.size > 1))])
+    | none => some (bad "det: outs")
+  | _ => none
 
 end JrsVerif.Drv.C16
